@@ -117,6 +117,13 @@ func promQ(query string) *c10Req {
 func promLabels() *c10Req {
 	return &c10Req{Method: "GET", Path: "/api/v1/labels", Query: []kv{{"start", c10StartS}, {"end", c10EndS}}}
 }
+func promLabelsM(match ...string) *c10Req {
+	q := promLabels()
+	for _, m := range match {
+		q.Query = append(q.Query, kv{"match[]", m})
+	}
+	return q
+}
 func promValues(name string, match ...string) *c10Req {
 	q := &c10Req{Method: "GET", Path: "/api/v1/label/" + name + "/values", Query: []kv{{"start", c10StartS}, {"end", c10EndS}}}
 	for _, m := range match {
@@ -432,8 +439,11 @@ func c10Positions() []c10Pos {
 		{"loki/series-form", inv(fQL, "QueryLabelsController.Series", "form", "match[]"), func(m string) *c10Req { return formOf(lokiSeries(m)) }},
 		{"loki/label-values-form", inv(fQL, "QueryLabelsController.Values", "form", "match[]"), func(m string) *c10Req { return formOf(lokiValues("job", m)) }},
 		{"prom/series-form", inv(fPL, "PromQueryLabelsController.Series", "form", "match[]"), func(m string) *c10Req { return formOf(promSeries(m)) }},
+		// /api/v1/labels reads match[] too (c17z: fix: /api/v1/labels honours match[])
+		{"prom/labels", inv(fPL, "PromQueryLabelsController.PromLabels", "query", "match[]"), func(m string) *c10Req { return promLabelsM(m) }},
+		{"prom/labels-form", inv(fPL, "PromQueryLabelsController.PromLabels", "form", "match[]"), func(m string) *c10Req { return formOf(promLabelsM(m)) }},
 	}
-	selLang := map[string]string{"loki/series": "logql-series", "loki/label-values": "logql-values", "prom/series": "logql-series"}
+	selLang := map[string]string{"loki/series": "logql-series", "loki/label-values": "logql-values", "prom/series": "logql-series", "prom/labels": "logql-series"}
 	for _, e := range selEPs {
 		e := e
 		for _, p := range selPos {
@@ -565,7 +575,12 @@ func c10Positions() []c10Pos {
 		q.Hdr = setKV(q.Hdr, "Content-Type", v)
 		return q
 	})
-	// prom label values with PromQL match[] (translated to LogQL text by Prom2LogqlMatch)
+	add("prom/labels", "param/header:Content-Type", inv(fPL, "PromQueryLabelsController.PromLabels", "header", "Content-Type"), full(nil), reachNever, func(v string) *c10Req {
+		q := formOf(promLabelsM(`{a="b"}`))
+		q.Hdr = setKV(q.Hdr, "Content-Type", v)
+		return q
+	})
+	// prom label values with PromQL match[] (since c17z planned by the PromQL label index query)
 	pvInv := inv(fPL, "PromQueryLabelsController.LabelValues", "query", "match[]")
 	for _, p := range pqPos {
 		p := p
